@@ -289,6 +289,171 @@ proof fn theorem_columns_fit(n: int, b: int, d: int, c: int)
     assert(c * n <= n * b) by (nonlinear_arith) requires c <= b, n >= 1;
 }
 
+// ---------------------------------------------------------------------------------------------------------------------
+// TransitionConstraintDegree::min_blowup_factor (air/src/air/transition/degree.rs) and what it is for: a constraint
+// evaluation domain of n * min_blowup_factor points accommodates the quotient of the constraint by the default divisor, and
+// leaves the head-room ctx_ok asks for. `usize::next_power_of_two` is a std shim (assumed: the result is >= its argument).
+pub struct ProofOptions { pub blowup: usize }
+impl ProofOptions {
+    pub const MIN_BLOWUP_FACTOR: usize = 2;
+    pub fn blowup_factor(&self) -> (r: usize) ensures r == self.blowup { self.blowup }
+}
+pub uninterp spec fn npot_spec(x: usize) -> usize;
+#[verifier::external_body]
+pub fn next_power_of_two(x: usize) -> (r: usize)
+    requires x <= usize::MAX / 2
+    ensures r == npot_spec(x), r >= x, r >= 1
+{ x.next_power_of_two() }
+pub open spec fn min_blowup_spec(d: TransitionConstraintDegree) -> usize {
+    let p = npot_spec(degree_bound(d) as usize);
+    if p >= 2 { p } else { 2 }
+}
+
+pub open spec fn degree_bound(d: TransitionConstraintDegree) -> int { d.base as int + d.cycles@.len() - 1 }
+
+proof fn l_cyc_le(c: Seq<usize>, n: int, upto: nat)
+    requires n >= 1, upto <= c.len(), forall|j: int| 0 <= j < c.len() ==> #[trigger] c[j] >= 1
+    ensures cyc_sum(c, n, upto) <= upto * (n - 1)
+    decreases upto
+{
+    if upto > 0 {
+        l_cyc_le(c, n, (upto - 1) as nat);
+        let cl = c[upto - 1] as int;
+        let q = n / cl;
+        // a positive term has q >= 1, and q * (cl - 1) = q * cl - q <= n - 1
+        assert(q >= 0 && q * cl <= n) by (nonlinear_arith) requires n >= 1, cl >= 1, q == n / cl;
+        assert(q * (cl - 1) == q * cl - q) by (nonlinear_arith);
+        if q == 0 { assert(q * (cl - 1) == 0) by (nonlinear_arith) requires q == 0; }
+        assert(upto * (n - 1) == (upto - 1) * (n - 1) + (n - 1)) by (nonlinear_arith);
+    }
+}
+// the evaluation degree is at most (base + number of cycles) * (n - 1), which a blowup of at least base + cycles - 1 accommodates
+proof fn l_eval_deg_fits(d: TransitionConstraintDegree, n: int, b: int)
+    requires n >= 1, d.base >= 1, forall|j: int| 0 <= j < d.cycles@.len() ==> #[trigger] d.cycles@[j] >= 1, b >= degree_bound(d), b >= 1
+    ensures
+        eval_deg(d, n) <= (degree_bound(d) + 1) * (n - 1),
+        // the quotient by the default divisor (degree n - 1) fits the constraint evaluation domain ...
+        eval_deg(d, n) - (n - 1) <= n * b - 1,
+        // ... and the head-room ctx_ok asks for
+        eval_deg(d, n) <= n * b - 1 + n,
+{
+    l_cyc_le(d.cycles@, n, d.cycles@.len());
+    let k = d.cycles@.len() as int;
+    assert(d.base as int * (n - 1) + k * (n - 1) == (degree_bound(d) + 1) * (n - 1)) by (nonlinear_arith) requires degree_bound(d) == d.base as int + k - 1;
+    assert((degree_bound(d) + 1) * (n - 1) <= (b + 1) * (n - 1)) by (nonlinear_arith) requires b >= degree_bound(d), n >= 1;
+    assert((b + 1) * (n - 1) == n * b - b + n - 1) by (nonlinear_arith);
+}
+
+impl TransitionConstraintDegree {
+    //@@ source air/src/air/transition/degree.rs
+    //@@ extract anchor="pub fn min_blowup_factor(&self) -> usize"
+    //@@ rewrite "degree_bound.next_power_of_two()" => "next_power_of_two(degree_bound)"
+    pub fn min_blowup_factor(&self) -> (r: usize)
+        requires self.base >= 1, self.base + self.cycles@.len() <= usize::MAX / 2
+        ensures r == min_blowup_spec(*self), r >= degree_bound(*self), r >= 2
+    {
+        /*@@body*/
+    }
+}
+
+// ---------------------------------------------------------------------------------------------------------------------
+// AirContext::new_multi_segment (air/src/air/context.rs): whenever the constructor returns, the constraint-evaluation blowup
+// is at least every constraint's degree bound (base + cycles - 1) and at least 2, the LDE blowup is at least as large, there
+// is at least one main constraint degree, the degree lists are stored unchanged and the exemption count is 1. With
+// l_eval_deg_fits this is the last conjunct of ctx_ok, i.e. what set_num_transition_exemptions and the column count rely on.
+// Shims (assumed contracts, named): TraceInfo accessors, `usize::ilog2`, `B::get_root_of_unity` (uninterpreted results).
+pub struct TraceInfo { pub length: usize, pub multi: bool, pub aux_width: usize }
+impl TraceInfo {
+    pub fn length(&self) -> (r: usize) ensures r == self.length { self.length }
+    pub fn is_multi_segment(&self) -> (r: bool) ensures r == self.multi { self.multi }
+    pub fn get_aux_segment_width(&self) -> (r: usize) ensures r == self.aux_width { self.aux_width }
+}
+#[derive(Copy, Clone)]
+pub struct B(pub u64);
+pub uninterp spec fn root_of(k: u32) -> B;
+impl B {
+    #[verifier::external_body]
+    pub fn get_root_of_unity(k: u32) -> (r: B) ensures r == root_of(k) { unimplemented!() }
+}
+pub uninterp spec fn ilog2_spec(x: usize) -> u32;
+#[verifier::external_body]
+pub fn ilog2(x: usize) -> (r: u32) requires x >= 1 ensures r == ilog2_spec(x) { x.ilog2() }
+
+pub struct AirContextNew {
+    pub options: ProofOptions,
+    pub trace_info: TraceInfo,
+    pub main_transition_constraint_degrees: Vec<TransitionConstraintDegree>,
+    pub aux_transition_constraint_degrees: Vec<TransitionConstraintDegree>,
+    pub num_main_assertions: usize,
+    pub num_aux_assertions: usize,
+    pub lagrange_kernel_aux_column_idx: Option<usize>,
+    pub ce_blowup_factor: usize,
+    pub trace_domain_generator: B,
+    pub lde_domain_generator: B,
+    pub num_transition_exemptions: usize,
+}
+pub open spec fn deg_small(d: TransitionConstraintDegree) -> bool { d.base >= 1 && d.base + d.cycles@.len() <= usize::MAX / 2 }
+
+//@@ source air/src/air/context.rs
+//@@ extract anchor="pub fn new_multi_segment("
+//@@ rewrite-re "(?s)assert!\(\s*([^,]+),.*?\);" => "if !(\1) { documented_panic(); }"
+//@@ before "let lde_domain_size"
+//@@|        proof { assert(trace_info.length * options.blowup >= 1) by (nonlinear_arith) requires trace_info.length >= 1, options.blowup >= 1; }
+//@@ rewrite "AirContext {" => "AirContextNew {"
+//@@ rewrite "trace_length.ilog2()" => "ilog2(trace_length)"
+//@@ rewrite "lde_domain_size.ilog2()" => "ilog2(lde_domain_size)"
+//@@ itername 1 it1
+//@@ loop 1
+//@@|        invariant
+//@@|            0 <= it1.index@ <= main_transition_constraint_degrees@.len(),
+//@@|            forall|j: int| 0 <= j < main_transition_constraint_degrees@.len() ==> deg_small(#[trigger] main_transition_constraint_degrees@[j]),
+//@@|            forall|j: int| 0 <= j < it1.index@ ==> ce_blowup_factor >= degree_bound(#[trigger] main_transition_constraint_degrees@[j]),
+//@@|            it1.index@ >= 1 ==> ce_blowup_factor >= 2,
+//@@ loopstart 1
+//@@|        proof { assert(*degree == main_transition_constraint_degrees@[it1.index@]); }
+//@@ itername 2 it2
+//@@ loop 2
+//@@|        invariant
+//@@|            0 <= it2.index@ <= aux_transition_constraint_degrees@.len(),
+//@@|            forall|j: int| 0 <= j < aux_transition_constraint_degrees@.len() ==> deg_small(#[trigger] aux_transition_constraint_degrees@[j]),
+//@@|            forall|j: int| 0 <= j < main_transition_constraint_degrees@.len() ==> ce_blowup_factor >= degree_bound(#[trigger] main_transition_constraint_degrees@[j]),
+//@@|            forall|j: int| 0 <= j < it2.index@ ==> ce_blowup_factor >= degree_bound(#[trigger] aux_transition_constraint_degrees@[j]),
+//@@|            ce_blowup_factor >= 2,
+//@@ loopstart 2
+//@@|        proof { assert(*degree == aux_transition_constraint_degrees@[it2.index@]); }
+pub fn new_multi_segment(
+    trace_info: TraceInfo,
+    main_transition_constraint_degrees: Vec<TransitionConstraintDegree>,
+    aux_transition_constraint_degrees: Vec<TransitionConstraintDegree>,
+    num_main_assertions: usize,
+    num_aux_assertions: usize,
+    lagrange_kernel_aux_column_idx: Option<usize>,
+    options: ProofOptions,
+) -> (r: AirContextNew)
+    requires
+        trace_info.length >= 1, options.blowup >= 1, trace_info.length * options.blowup <= usize::MAX,
+        trace_info.aux_width >= 1 || lagrange_kernel_aux_column_idx is None,
+        forall|j: int| 0 <= j < main_transition_constraint_degrees@.len() ==> deg_small(#[trigger] main_transition_constraint_degrees@[j]),
+        forall|j: int| 0 <= j < aux_transition_constraint_degrees@.len() ==> deg_small(#[trigger] aux_transition_constraint_degrees@[j]),
+    ensures
+        r.main_transition_constraint_degrees == main_transition_constraint_degrees,
+        r.aux_transition_constraint_degrees == aux_transition_constraint_degrees,
+        r.main_transition_constraint_degrees@.len() >= 1,
+        r.num_main_assertions == num_main_assertions, num_main_assertions >= 1,
+        r.num_aux_assertions == num_aux_assertions,
+        trace_info.multi ==> r.aux_transition_constraint_degrees@.len() >= 1 && num_aux_assertions >= 1,
+        !trace_info.multi ==> r.aux_transition_constraint_degrees@.len() == 0 && num_aux_assertions == 0,
+        r.num_transition_exemptions == 1,
+        r.ce_blowup_factor >= 2, r.options.blowup >= r.ce_blowup_factor,
+        forall|j: int| 0 <= j < main_transition_constraint_degrees@.len() ==> r.ce_blowup_factor >= degree_bound(#[trigger] main_transition_constraint_degrees@[j]),
+        forall|j: int| 0 <= j < aux_transition_constraint_degrees@.len() ==> r.ce_blowup_factor >= degree_bound(#[trigger] aux_transition_constraint_degrees@[j]),
+        r.trace_info == trace_info, r.options == options,
+        r.lagrange_kernel_aux_column_idx == lagrange_kernel_aux_column_idx,
+        lagrange_kernel_aux_column_idx is Some ==> lagrange_kernel_aux_column_idx->0 == trace_info.aux_width - 1,
+{
+    /*@@body*/
+}
+
 // canary: must FAIL (a column count that is always 1 is not what the contract says)
 proof fn contextv_canary_must_fail(c: AirContext)
     requires c.trace_len >= 1
